@@ -317,11 +317,23 @@ def evaluate(case, ctx, substitute=False, only=None):
         amp2 = max([1.0] + [1.0 / d if d > 0 else np.inf for d in rec2.den[1:]])
         return s2, amp2
 
-    def compare(sub, s2, amp2, tolfac):
+    def geom_cond(g):
+        """The estimator measures grid-grid distances with the dot-product formula |a|^2 + |b|^2 - 2ab: its relative error is
+        eps x |coordinates|^2 / d^2, which matters when two grid points nearly coincide far from the origin."""
+        dg = (sqd(g, g, cell) ** 2).sum(-1)
+        pos = dg[dg > 0]
+        if pos.size == 0:
+            return np.inf
+        return float((np.abs(g).max() ** 2 + 1e-300) / pos.min())
+
+    def compare(sub, s2, amp2, tolfac, cond=1.0):
         if s2 is None or not amp2 < 1e6:
             ctx.skip(sub + ": variant ill-conditioned")
             return
-        t = max(tolfac, 1e-10 * max(amp, amp2)) * sscale
+        if cond > 1e10:
+            ctx.skip(sub + ": nearly coincident grid points far from the origin (distance formula ill-conditioned)")
+            return
+        t = max(tolfac, 1e-10 * max(amp, amp2), 1e-14 * cond) * sscale
         both = fs & np.isfinite(s2)
         if not np.array_equal(fs, np.isfinite(s2)):
             ctx.fail(sub, "finite / infinite pattern of the log-densities changed")
@@ -335,18 +347,18 @@ def evaluate(case, ctx, substitute=False, only=None):
         if only is None:
             sh = case["shift"]
             s2, a2 = refit_scores(desc + sh, w, grid + sh, Q + sh, "translation")
-            compare("invariance:translation", s2, a2, 1e-8)
+            compare("invariance:translation", s2, a2, 1e-8, max(geom_cond(grid), geom_cond(grid + sh)))
     else:
         if only is None:
             s2, a2 = refit_scores(desc + case["shd"] * cell, w, grid, Q + case["shq"] * cell, "descriptor/query image shift")
-            compare("invariance:descriptor-and-query-image-shift", s2, a2, 1e-7)
+            compare("invariance:descriptor-and-query-image-shift", s2, a2, 1e-7, geom_cond(grid))
         if case["shift_grid"]:
             s2, a2 = refit_scores(desc, w, grid + case["shg"] * cell, Q, "grid image shift")
-            compare("invariance:grid-image-shift", s2, a2, 1e-7)
+            compare("invariance:grid-image-shift", s2, a2, 1e-7, max(geom_cond(grid), geom_cond(grid + case["shg"] * cell)))
     if only is None:
         p, pg = np.asarray(case["perm"]), np.asarray(case["permg"])
         s2, a2 = refit_scores(desc[p], None if w is None else w[p], grid[pg], Q, "permutation")
-        compare("invariance:permutation", s2, a2, 1e-9)
+        compare("invariance:permutation", s2, a2, 1e-9, geom_cond(grid))
 
 
 def check(case, ctx):
